@@ -24,6 +24,7 @@ type Clause struct {
 	Canary bool
 	Name   string // let name
 	Loop   int
+	Cond   ast.Expr // modifies ... if COND (evaluated in the pre-state)
 	File   string
 	Line   int
 }
@@ -141,6 +142,17 @@ func parseContracts(path, pkgPath string, external bool) ([]*Contract, map[strin
 			}
 			cl.Name = strings.TrimSpace(txt[:i])
 			src = txt[i+1:]
+		}
+		if cl.Kind == "modifies" {
+			// modifies TARGET if COND
+			if j := strings.LastIndex(src, " if "); j > 0 {
+				ce, err := parser.ParseExpr(src[j+4:])
+				if err != nil {
+					return fmt.Errorf("%s:%d: %v in modifies condition %q", path, cl.Line, err, src[j+4:])
+				}
+				cl.Cond = ce
+				src = src[:j]
+			}
 		}
 		if cl.Kind == "modifies" && strings.TrimSpace(src) == "heap" {
 			cl.Expr = &ast.Ident{Name: "heap"}
